@@ -129,6 +129,9 @@ func payloadTok(r *rand.Rand, mode string, big bool) string {
 		// pre-encoded CBOR
 		t := genTree(r, 2, false)
 		t.sortKids(r)
+		if r.Intn(3) == 0 { // pre-encoded CBOR is opaque to the library: indefinite lengths and long heads are the caller's business
+			return hx(t.emit(nil, r, &emitOpts{indef: 0.4, nonShortest: 0.3}))
+		}
 		return hx(t.emit(nil, r, nil))
 	}
 	switch r.Intn(10) {
@@ -298,7 +301,7 @@ func tamperParts(r *rand.Rand, p *producedMsg) (kind string, data []byte, ext st
 	data = append([]byte{}, p.data...)
 	ext = p.ext
 	kind = p.kind
-	switch r.Intn(14) {
+	switch r.Intn(15) {
 	case 0, 1: // bit flip anywhere
 		i := r.Intn(len(data))
 		data[i] ^= 1 << uint(r.Intn(8))
@@ -324,6 +327,25 @@ func tamperParts(r *rand.Rand, p *producedMsg) (kind string, data []byte, ext st
 		data = retag(data, kind)
 	case 8, 9: // the authenticator (signature / tag / ciphertext) shortened, emptied or lengthened, well-formed CBOR kept
 		data = resizeAuth(r, data, p.kind)
+	case 13: // a COSE_Sign1 re-framed as COSE_Sign with its signature under a signer entry whose protected bucket is empty
+		// (h'' / null / h'a0'): the contexts "Signature1" and "Signature" must keep the two kinds apart
+		_, spans := topMembers(data)
+		if p.kind == "sign1" && len(spans) == 4 {
+			sigItem := data[spans[3][0]:spans[3][1]]
+			su := []byte{0xa0}
+			if len(p.keys[0].kid) > 0 {
+				su = append([]byte{0xa1, 0x04}, bstrItem(p.keys[0].kid)...)
+			}
+			sp := [][]byte{{0x40}, {0xf6}, {0x41, 0xa0}}[r.Intn(3)]
+			signer := append(append(append([]byte{0x83}, sp...), su...), sigItem...)
+			body := append([]byte{0x84}, data[spans[0][0]:spans[2][1]]...)
+			body = append(body, 0x81)
+			body = append(body, signer...)
+			kind = "sign"
+			data = append([]byte{0xd8, 0x62}, body...)
+		} else {
+			data = resizeAuth(r, data, p.kind)
+		}
 	case 12: // another encoding of an empty protected bucket (h'' <-> h'a0' / h'b800' / null): the authenticated bytes change
 		_, spans := topMembers(data)
 		if len(spans) > 0 {
